@@ -1606,5 +1606,11 @@ func TestVerifC01(t *testing.T) {
 	// (d) integration site: core/stores/redis breakerHook (commands answered by an inner go-redis hook)
 	kit.Run(t, "C01", "redis", kit.N(60, 1000), func(c *kit.Case) { runRedis(c, vc) })
 
+	// (d) integration site: core/stores/sqlx breaker plumbing over a scripted database/sql driver (c01_sqlx_test.go)
+	kit.Run(t, "C01", "sqlx", kit.N(400, 6000), func(c *kit.Case) { runSqlx(c, vc) })
+	kit.Run(t, "C01", "sqlx-effect", kit.N(len(sqlFailCombos), 10*len(sqlFailCombos)), func(c *kit.Case) { runSqlxEffect(c, vc) })
+	kit.Run(t, "C01", "sqlx-flood", kit.N(len(sqlOkCombos), 10*len(sqlOkCombos)), func(c *kit.Case) { runSqlxFlood(c, vc) })
+	kit.Run(t, "C01", "sqlx-shared", kit.N(5, 50), func(c *kit.Case) { runSqlxShared(c, vc) })
+
 	kit.End()
 }
